@@ -1289,3 +1289,119 @@ Proof.
   destruct (canonical_revalidate_n E c HE Hc n) as (c' & Hr & Hs & Hc'). exists c'.
   split; [exact Hr|]. split; [exact Hs|]. split; [apply same_but_weights_equiv; exact Hs | exact Hc'].
 Qed.
+
+(* =============================================================================================
+   field conversions (dimension check) and index arrays: validate_full
+   ============================================================================================= *)
+Lemma validate_full_unfold E tbl ctx nls dims ix raw c ix' : validate_full E tbl ctx nls dims ix raw = Ok (c, ix') ->
+  dims_ok tbl dims = true /\ validate E ctx nls raw = Ok c /\
+  validate_indices (length (v_initial (c_vars c))) (length (c_obj_w c)) (nonlinear_count c) ix = Ok ix'.
+Proof.
+  unfold validate_full. intros H. inv_bind_as H u Hd. inv_bind_as H c0 Hv. inv_bind_as H ix0 Hi.
+  injection H as <- <-. apply guard_ok in Hd. auto.
+Qed.
+
+Lemma validate_full_fold E tbl ctx nls dims ix raw c ix' : dims_ok tbl dims = true -> validate E ctx nls raw = Ok c ->
+  validate_indices (length (v_initial (c_vars c))) (length (c_obj_w c)) (nonlinear_count c) ix = Ok ix' ->
+  validate_full E tbl ctx nls dims ix raw = Ok (c, ix').
+Proof. intros Hd Hv Hi. unfold validate_full. rewrite Hd. cbn [guard bind]. rewrite Hv. cbn [bind]. rewrite Hi. reflexivity. Qed.
+
+Lemma validate_indices_unfold V nobj nnl ix ix' : validate_indices V nobj nnl ix = Ok ix' ->
+  omap (broadcast1 nobj) (i_obj_filters ix) = Ok (i_obj_filters ix') /\
+  omap (broadcast1 nobj) (i_obj_estimators ix) = Ok (i_obj_estimators ix') /\
+  omap (broadcast1 nnl) (i_nl_filters ix) = Ok (i_nl_filters ix') /\
+  omap (broadcast1 nnl) (i_nl_estimators ix) = Ok (i_nl_estimators ix') /\
+  omap (broadcast1 V) (i_samplers ix) = Ok (i_samplers ix').
+Proof.
+  unfold validate_indices. intros H. inv_bind_as H a Ha. inv_bind_as H b Hb. inv_bind_as H c Hc. inv_bind_as H d Hd.
+  inv_bind_as H e He. injection H as <-. cbn. auto.
+Qed.
+
+(* every index array given is broadcast to full length: one entry per variable / objective / constraint *)
+Lemma validate_full_indices E tbl ctx nls dims ix raw c ix' : validate_full E tbl ctx nls dims ix raw = Ok (c, ix') ->
+  obroadcast_of (length (v_initial (c_vars raw))) (i_samplers ix) (i_samplers ix') /\
+  obroadcast_of (length (c_obj_w raw)) (i_obj_filters ix) (i_obj_filters ix') /\
+  obroadcast_of (length (c_obj_w raw)) (i_obj_estimators ix) (i_obj_estimators ix') /\
+  obroadcast_of (nonlinear_count c) (i_nl_filters ix) (i_nl_filters ix') /\
+  obroadcast_of (nonlinear_count c) (i_nl_estimators ix) (i_nl_estimators ix').
+Proof.
+  intros H. apply validate_full_unfold in H as (_ & Hv & Hi).
+  pose proof (validate_lengths _ _ _ _ _ Hv) as HL. cbn zeta in HL.
+  destruct HL as (HV & _ & _ & _ & _ & _ & _ & _ & Ho & _).
+  apply validate_indices_unfold in Hi as (H1 & H2 & H3 & H4 & H5). rewrite HV, Ho in *.
+  repeat split; apply omap_broadcast1_spec; assumption.
+Qed.
+
+Lemma omap_broadcast1_reject {A} n (o : option (list A)) : n <> 0%nat -> obad_length n o -> omap (broadcast1 n) o = Reject.
+Proof.
+  intros Hn Hb. destruct o as [l|]; [|contradiction]. destruct Hb as [H1 H2]. cbn [omap].
+  rewrite (broadcast1_reject n l Hn H1 H2). reflexivity.
+Qed.
+
+(* an index array that is neither a scalar nor of full length is rejected *)
+Lemma rejects_bad_index_shapes E tbl ctx nls dims ix raw c : validate E ctx nls raw = Ok c ->
+  (length (v_initial (c_vars c)) <> 0%nat /\ obad_length (length (v_initial (c_vars c))) (i_samplers ix)) \/
+  (length (c_obj_w c) <> 0%nat /\
+   (obad_length (length (c_obj_w c)) (i_obj_filters ix) \/ obad_length (length (c_obj_w c)) (i_obj_estimators ix))) \/
+  (nonlinear_count c <> 0%nat /\
+   (obad_length (nonlinear_count c) (i_nl_filters ix) \/ obad_length (nonlinear_count c) (i_nl_estimators ix))) ->
+  forall r, validate_full E tbl ctx nls dims ix raw <> Ok r.
+Proof.
+  intros Hv Hbad [c' ix'] H. apply validate_full_unfold in H as (_ & Hv' & Hi). rewrite Hv in Hv'. injection Hv' as <-.
+  apply validate_indices_unfold in Hi as (H1 & H2 & H3 & H4 & H5).
+  destruct Hbad as [[Hn Hb]|[[Hn [Hb|Hb]]|[Hn [Hb|Hb]]]].
+  - rewrite (omap_broadcast1_reject _ _ Hn Hb) in H5. discriminate.
+  - rewrite (omap_broadcast1_reject _ _ Hn Hb) in H1. discriminate.
+  - rewrite (omap_broadcast1_reject _ _ Hn Hb) in H2. discriminate.
+  - rewrite (omap_broadcast1_reject _ _ Hn Hb) in H3. discriminate.
+  - rewrite (omap_broadcast1_reject _ _ Hn Hb) in H4. discriminate.
+Qed.
+
+(* an array given with more dimensions than its type allows is rejected, whatever else the dictionary holds *)
+Lemma rejects_extra_dimensions E tbl ctx nls dims ix raw d : In d dims -> ndim_ok tbl d = false ->
+  forall r, validate_full E tbl ctx nls dims ix raw <> Ok r.
+Proof.
+  intros Hin Hd [c ix'] H. apply validate_full_unfold in H as (Hok & _ & _).
+  unfold dims_ok in Hok. rewrite forallb_forall in Hok. rewrite (Hok d Hin) in Hd. discriminate.
+Qed.
+
+Lemma ndim_ok_spec tbl t g k : find (fun e : string * option nat => String.eqb (fst e) t) tbl = Some (t, Some k) ->
+  ndim_ok tbl (t, g) = Nat.leb g k.
+Proof. intros H. unfold ndim_ok. cbn [fst snd]. rewrite H. reflexivity. Qed.
+
+(* when the dimensions are fine, validate_full is validate followed by the broadcast of the index arrays: every theorem about
+   validate applies to the configuration it returns *)
+Lemma validate_full_validate E tbl ctx nls dims ix raw c ix' : validate_full E tbl ctx nls dims ix raw = Ok (c, ix') ->
+  validate E ctx nls raw = Ok c.
+Proof. intros H. apply validate_full_unfold in H as (_ & H & _). exact H. Qed.
+
+Lemma omap_broadcast1_fixed {A} n (o o0 : option (list A)) : omap (broadcast1 n) o0 = Ok o -> omap (broadcast1 n) o = Ok o.
+Proof.
+  intros H. apply omap_ok in H. destruct o0 as [l0|], o as [l|]; try contradiction; [|reflexivity].
+  apply broadcast1_ok in H as [Hl _]. cbn [omap]. rewrite (broadcast1_fixed n l Hl). reflexivity.
+Qed.
+
+Lemma validate_indices_fixed V nobj nnl ix ix' : validate_indices V nobj nnl ix = Ok ix' -> validate_indices V nobj nnl ix' = Ok ix'.
+Proof.
+  intros H. apply validate_indices_unfold in H as (H1 & H2 & H3 & H4 & H5). unfold validate_indices.
+  rewrite (omap_broadcast1_fixed _ _ _ H1). cbn [bind]. rewrite (omap_broadcast1_fixed _ _ _ H2). cbn [bind].
+  rewrite (omap_broadcast1_fixed _ _ _ H3). cbn [bind]. rewrite (omap_broadcast1_fixed _ _ _ H4). cbn [bind].
+  rewrite (omap_broadcast1_fixed _ _ _ H5). cbn [bind]. destruct ix'; reflexivity.
+Qed.
+
+Lemma qlist_eqb_length a b : qlist_eqb a b = true -> length a = length b.
+Proof. rewrite qlist_eqb_Forall2. intros H. induction H; cbn; congruence. Qed.
+
+(* idempotence with the index arrays: the dump of what validate_full returned validates, without a context, to an equivalent
+   configuration with the very same index arrays *)
+Lemma validate_full_idempotent E tbl ctx nls dims dims' ix raw c ix' : enums_wf E ->
+  validate_full E tbl ctx nls dims ix raw = Ok (c, ix') -> dims_ok tbl dims' = true ->
+  exists c', validate_full E tbl None None dims' ix' (dump c) = Ok (c', ix') /\ same_but_weights c c' /\ equiv c c' = true /\ canonical E c'.
+Proof.
+  intros HE H Hd'. apply validate_full_unfold in H as (_ & Hv & Hi).
+  destruct (validate_idempotent _ _ _ _ _ HE Hv) as (c' & Hv' & Hs & He & Hc). exists c'.
+  split; [|auto]. apply validate_full_fold; [exact Hd' | exact Hv' |].
+  destruct Hs as (Hvars & _ & _ & _ & Hnl & Ho & _).
+  unfold nonlinear_count. rewrite Hvars, Hnl, <- (qlist_eqb_length _ _ Ho).
+  eapply validate_indices_fixed; exact Hi.
+Qed.
